@@ -20,6 +20,9 @@ type ShapeOpts struct {
 	MaxPts int
 	// Big occasionally produces long lines (up to 300 points).
 	Big bool
+	// Huge very rarely (one line in 15,000) produces a line of 65,536 or 131,072
+	// coordinates, give or take two.
+	Huge bool
 	// CoordFn, if set, replaces the float-class based coordinate generator.
 	CoordFn func(r *fw.Rand, stride int) []float64
 }
@@ -106,6 +109,9 @@ func line(r *fw.Rand, stride int, cl FloatClass, o ShapeOpts) [][]float64 {
 	}
 	if o.Big && r.Chance(1, 250) {
 		n = ThresholdSize(r, 5000)
+	}
+	if o.Huge && r.Chance(1, 15000) {
+		n = 65536*r.Range(1, 2) + r.Range(-2, 2)
 	}
 	out := make([][]float64, n)
 	for i := range out {
